@@ -95,11 +95,18 @@ Proof. vm_compute. split; reflexivity. Qed.
 Theorem y_timedelta_hash_refuted :
   obs Ysig0 false (va (ATd 5000000)) (va (ATd 5000000)) = (None, YEmpty).
 Proof. vm_compute. reflexivity. Qed.
-(* C12-truncate-date-timedelta-raises *)
-Theorem y_truncate_date_timedelta_refuted :
-  obs (Ytrunc UHour) false (d1 ks (va (ADate 2024 1 1))) (d1 ks (va (ADate 2024 1 1))) = (Some true, YRaised EType) /\
-  obs (Ytrunc UHour) false (d1 ks (va (ATd 5000000))) (d1 ks (va (ATd 5000000))) = (Some true, YRaised EAttr).
-Proof. vm_compute. split; reflexivity. Qed.
+(* C12-truncate-date-timedelta-raises is FIXED in /repo 1c8f0f8 (datetime_normalize truncates only datetime / time
+   objects): the former witness, now on the side of the property - equal dates / timedeltas under
+   truncate_datetime: equal hashes, nothing reported, nothing raised; different ones differ for both engines;
+   a time facing a number under the numeric type group no longer raises *)
+Definition Ytrunc_numty (u : tunit) : opts := mkOpts false false true None None [] (Some u) 0 false false false.
+Theorem y_truncate_date_timedelta_fixed :
+  obs (Ytrunc UHour) false (d1 ks (va (ADate 2024 1 1))) (d1 ks (va (ADate 2024 1 1))) = (Some true, YEmpty) /\
+  obs (Ytrunc UHour) false (d1 ks (va (ATd 5000000))) (d1 ks (va (ATd 5000000))) = (Some true, YEmpty) /\
+  obs (Ytrunc UDay) false (d1 ks (va (ADate 2024 1 1))) (d1 ks (va (ADate 2024 1 2))) = (Some false, YNonEmpty) /\
+  obs (Ytrunc UMinute) true (d1 ks (va (ATd 5000000))) (d1 ks (va (ATd 6000000))) = (Some false, YNonEmpty) /\
+  obs (Ytrunc_numty UMinute) false (va (ATime 37230000000)) (va (AInt 9)) = (Some false, YNonEmpty).
+Proof. vm_compute. repeat split; reflexivity. Qed.
 (* C12-date-key-cleaning-TypeError *)
 Theorem y_date_key_cleaning_refuted :
   obs Ycase_sig3 false (d1 (ADate 2024 1 1) (va (AInt 1))) (d1 (ADate 2024 1 1) (va (AInt 1))) = (Some true, YRaised EType).
